@@ -802,6 +802,8 @@ struct Shared {
     /// the victim raised a transport error although nothing but legal datagrams had been injected: (code, frame type)
     killed_legal: Option<(u64, Option<u64>)>,
     dropped: u64,
+    /// a CONNECTION_CLOSE frame was injected: the victim may legitimately answer it with NO_ERROR whatever happened before
+    close_injected: bool,
 }
 
 impl Shared {
@@ -901,7 +903,7 @@ pub fn frames(seed: u64, out: &mut Outcome) {
     let shared = Rc::new(RefCell::new(Shared { lim: if victim == SERVER { lim_s } else { lim_c }, ..Default::default() }));
 
     // the victim-side observation around every datagram it handles
-    let emit_frules = std::env::var("VERIF_FRULES").is_ok();
+    let emit_frules = std::env::var("VERIF_NO_FRULES").is_err();
     let sh = shared.clone();
     sim.rx_tap = Some(Box::new(move |sim: &mut Sim, node: usize, ch: usize, len: usize, post: bool| {
         let mut s = sh.borrow_mut();
@@ -1151,6 +1153,7 @@ pub fn frames(seed: u64, out: &mut Outcome) {
                         };
                         if !fr.is_empty() {
                             let bytes: Vec<u8> = fr.iter().flat_map(|f| f.bytes.iter().copied()).collect();
+                            let fr_has_close = fr.iter().any(|f| matches!(f.bytes.first(), Some(0x1c | 0x1d)));
                             if sim.conn(hn, hc).verif_inject_frames(space as u8, bytes) {
                                 injected += 1;
                                 injected_legal += legal as u64;
@@ -1160,6 +1163,7 @@ pub fn frames(seed: u64, out: &mut Outcome) {
                                 s.pending_legal[space] = legal;
                                 s.pending_new[space] = new_bytes;
                                 s.illegal_injected |= !legal;
+                                s.close_injected |= fr_has_close;
                                 quiet = 0;
                             } else {
                                 // not sent: the stream bookkeeping must not count it
@@ -1217,7 +1221,9 @@ pub fn frames(seed: u64, out: &mut Outcome) {
         if !rfc {
             sim.fail("hostile-peer-wrong-error-class", format!("victim ended with transport error code {code:#x}, which RFC 9000 does not define"));
         }
-        if let Some(("peer-transport", c2)) = s.hostile_end {
+        if let (Some(("peer-transport", c2)), false) = (s.hostile_end, s.close_injected) {
+            // (if the hostile side itself sent a CONNECTION_CLOSE - only an injected one can precede the victim's - a victim already
+            // closing answers THAT frame from the draining state with NO_ERROR, RFC 9000 10.2.2)
             close_checked = true;
             if c2 != code {
                 sim.fail("hostile-peer-wrong-error-class", format!("victim reported transport error {code:#x} but the CONNECTION_CLOSE its peer received carries {c2:#x}"));
@@ -1254,6 +1260,7 @@ pub fn frames(seed: u64, out: &mut Outcome) {
     out.count("attack-stream-bytes", attack_streams.iter().map(|a| a.end).sum());
     out.count("victim-established", a_established as u64);
     out.count("close-code-compared", close_checked as u64);
+    out.count("close-frame-injected", s.close_injected as u64);
     out.count("victim-ended-with-transport-error", victim_error.is_some() as u64);
     if let Some((k, c)) = s.hostile_end {
         out.count(&format!("hostile-side-ended:{k}:{}", code_class(c)), 1);
